@@ -3943,3 +3943,36 @@ def r02_17(ctx):
                 "while the socket enters TIME-WAIT replaces the 10 s close timer (the stop clause then idles it), so TIME-WAIT never ends", body=b, bb=bad[0][0], path=bad[0][1])
     else:
         ctx.ok(('process', 'probe timer needs data'), sample=dict(fn='tcp::Socket::process', arms='zero-window-probe timer', behind='!tx_buffer.is_empty()'))
+
+
+@rule('R20.13', ['C20', 'C03'], floor=2, clause='6LoWPAN: every kind of header the egress side sends uncompressed behind the IPHC header (the Uncompressed(..) answers of as_sixlowpan_next_header: TCP, ICMPv6, the hop-by-hop header of MLD reports) is one the decompressor accepts in its uncompressed arm')
+def r20_13(ctx):
+    F = ctx.F
+    NH = 'wire::sixlowpan::NextHeader'
+    P = 'wire::ip::Protocol'
+    eb = [F.bodies[k] for k in F.bodies if k.endswith('::as_sixlowpan_next_header')]
+    db = [F.bodies[k] for k in F.bodies if k.endswith('::sixlowpan_to_ipv6') and '{closure' not in k]
+    ctx.need(eb and db, "as_sixlowpan_next_header / sixlowpan_to_ipv6")
+    e, d = eb[0], db[0]
+    sent = set()
+    for bi, si, var in agg_sites(e, NH, ['Uncompressed']):
+        s = e.blocks[bi]['s'][si]
+        o = strip(simplify(F.origin.operand(e, s[2][2][0], bi, si)))
+        if o[0] == 'variant':
+            sent.add(o[1].rsplit('::', 1)[-1])
+    ctx.need(len(sent) >= 2, f"Uncompressed(..) answers of as_sixlowpan_next_header (found {sorted(sent)})")
+    copies = {x[0] for x in d.calls() if (d.callee_name(x[1]) or '').endswith('::copy_from_slice')}
+    accepted = set()
+    for bi, bl in enumerate(d.blocks):
+        if bl['cl'] or bl['t'][0] != 'switch':
+            continue
+        for tb, lab, f in cond_facts(F, d, bi):
+            if f[0] == 'is' and f[3] == P and any(c in d.reachable(start=tb, cut_blocks={bi}) for c in copies):
+                accepted.add(f[2])
+    ctx.need(accepted, "protocols accepted in the uncompressed arm of sixlowpan_to_ipv6")
+    for v in sorted(sent):
+        if v in accepted:
+            ctx.ok(('uncompressed', v), sample=dict(sent_uncompressed=v, accepted=True))
+        else:
+            ctx.bad(f"sixlowpan_to_ipv6|uncompressed-{v}-rejected", f"the 6LoWPAN egress sends a {v} header uncompressed behind the IPHC header, but sixlowpan_to_ipv6 rejects that next header "
+                    f"(it accepts {sorted(accepted)}): a datagram this stack sends over IEEE 802.15.4 (an MLD report) cannot be decompressed by a receiving interface", body=d)
